@@ -259,6 +259,11 @@ FIXED = [
     'Struct("s"/NullTerminated(GreedyBytes, include=True), "u"/Byte)',
     'Struct("b"/BitStruct("a"/Nibble, Padding(3), "c"/Bit), "t"/Byte)',
     'Struct("b"/BitStruct("a"/BitsInteger(5), "f"/Flag, Padding(2), "c"/Byte), "t"/Byte)',
+    # byte-level islands in a bit region are described with byte-level types
+    'Struct("b"/BitStruct("a"/Nibble, "c"/Nibble, "w"/Bytewise(Flag), "x"/Bytewise(Int16ul)), "t"/Byte)',
+    'Struct("b"/BitStruct("a"/Octet, "w"/Bytewise(Padding(2)), "f"/Bytewise(Float32b), "g"/Bytewise(Int16sb)), "t"/Byte)',
+    'Struct("b"/Bitwise(Struct("a"/Octet, "w"/Bytewise(Struct("p"/Flag, "q"/Int16sl, "r"/Bytes(2))))), "t"/Byte)',
+    'Struct("b"/BitStruct("a"/Octet, "w"/Bytewise(Bytes(2)), "z"/Octet), "t"/Byte)',
     # identifiers are the member names as written (case, digits, underscores), also where a condition refers to them
     'Struct("Len"/Byte, "len"/Byte, "hasTail"/Byte, "Tail"/If(this.hasTail > 0, Byte), "X_1"/Bytes(this.Len % 4))',
     'Struct("Hdr"/Struct("Kind"/Byte, "kind"/Byte), "BODY"/Array(2, Struct("A"/Byte)), "z"/Byte)',
@@ -271,7 +276,9 @@ FIXED_VALUES = {
     8: dict(v=300, r=[1, 2, 0], f=dict(a=True, b=False), t=4), 9: dict(s=b'ab'), 10: dict(n=1, j=5, t=2),
     11: dict(a=[dict(x=1, y=2), dict(x=3, y=4)], t=5), 12: dict(p=dict(x=1, r=b'zz'), t=5), 13: dict(l=4, s='ab', t=1), 14: dict(o=3, p=258, t=1),
     15: dict(s=b'ab', t=0, u=7), 16: dict(s=b'ab\x00', u=7), 17: dict(b=dict(a=9, c=1), t=3), 18: dict(b=dict(a=17, f=True, c=200), t=3),
-    19: dict(Len=2, len=7, hasTail=1, Tail=9, X_1=b'ab'), 20: dict(Hdr=dict(Kind=1, kind=2), BODY=[dict(A=3), dict(A=4)], z=5),
+    19: dict(b=dict(a=9, c=3, w=True, x=513), t=3), 20: dict(b=dict(a=9, f=1.5, g=-2), t=3), 21: dict(b=dict(a=9, w=dict(p=True, q=-2, r=b'xy')), t=3),
+    22: dict(b=dict(a=1, w=b'xy', z=2), t=3),
+    23: dict(Len=2, len=7, hasTail=1, Tail=9, X_1=b'ab'), 24: dict(Hdr=dict(Kind=1, kind=2), BODY=[dict(A=3), dict(A=4)], z=5),
 }
 
 
